@@ -9,6 +9,14 @@ Record cf_axis (T : Type) := mk_axis { ax_first : T; ax_last : T; ax_spacing : T
 Arguments mk_axis {T}. Arguments ax_first {T}. Arguments ax_last {T}. Arguments ax_spacing {T}.
 Arguments ax_nb {T}. Arguments ax_sign {T}.
 
+(* axis_info = {'x': <axis dict>, 'y': <axis dict>} of utils/cf._load_cf_area_one_variable_areadef *)
+Record cf_axes (T : Type) := mk_axes { axes_x : cf_axis T; axes_y : cf_axis T }.
+Arguments mk_axes {T}. Arguments axes_x {T}. Arguments axes_y {T}.
+
+(* what utils/rasterio._get_area_def_from_rasterio reads of a rasterio dataset; .bounds is computed by rasterio *)
+Record rio_ds (T : Type) := mk_rio { rio_height : Z; rio_width : Z; rio_bounds : T * T * T * T }.
+Arguments mk_rio {T}. Arguments rio_height {T}. Arguments rio_width {T}. Arguments rio_bounds {T}.
+
 (* the two attributes of an osgeo.gdal dataset read by utils/rasterio._get_area_def_from_gdal *)
 Record raster_ds := mk_ds { RasterXSize : Z; RasterYSize : Z }.
 
